@@ -168,7 +168,7 @@ def init_walkers(ctx):
                     return [base(m2[0]), base(m2[1])] if m2 is not None else [base(a)]
 
                 uses = core is not None and bool(dets) and all(
-                    any(y is core for y in operands(d)) for d in dets)
+                    any(y is base(core) for y in operands(d)) for d in dets)
                 ctx.rep.ob("GUARD-1", f"{fi.qualname}: return #{k} returns the orbitals that were tested",
                            uses, "tested determinant is built from the returned orbitals" if uses else
                            "the acceptance test looks at other orbitals than the ones returned",
